@@ -240,7 +240,7 @@ class MutableDecodeBlocks(Spec):
     canary_case = {"ids": (4, 0, 2, 1), "tail": True, "split": 2}
 
     def inputs(self):
-        return {"ids": ChoiceK([()]), "tail": ChoiceK([False, True]), "split": ChoiceK([0, 2]), "use": IntK(1)}
+        return {"ids": ChoiceK([()]), "tail": ChoiceK([False, True]), "split": ChoiceK([0, 2]), "use": IntK(1), "tailsize": IntK(1), "read_ends_here": BoolK()}
 
     def all_cases(self):
         out = []
@@ -250,7 +250,7 @@ class MutableDecodeBlocks(Spec):
         return out[::2]
 
     def requires(self, I, a):
-        return z3.And(Z(a["use"]) <= 3 * z3.Int("piece_len"), z3.Int("piece_len") >= 1)
+        return z3.And(Z(a["use"]) <= 3 * z3.Int("piece_len"), Z(a["tailsize"]) <= 3 * z3.Int("piece_len"), Z(a["tailsize"]) != Z(a["use"]), z3.Int("piece_len") >= 1)
 
     def config(self):
         c = dict(AWAIT)
@@ -270,8 +270,11 @@ class MutableDecodeBlocks(Spec):
             return self._d
         codec = stub("decoder", decode=decode)
         st = stub("status", accumulate_decode_time=noop)
+        segnum = 3 if a["tail"] else 1
+        # the segment being decoded may or may not be the last one THIS READ wants; only being the file's last segment matters
+        last_wanted = segnum if I.path.branch(to_z3_bool(a["read_ends_here"])) else 3
         r = SObj(self.module().Retrieve, {"_required_shares": K, "_num_segments": 4, "_tail_decoder": codec, "_segment_decoder": codec, "_data_length": 1000,
-                                          "_tail_data_size": a["use"], "_segment_size": a["use"], "_status": st})
+                                          "_tail_data_size": a["tailsize"], "_segment_size": a["use"], "_status": st, "_last_segment": last_wanted, "_start_segment": 0, "_current_segment": segnum})
         items = [(i, (block(i, ps), "salt")) for i in a["ids"]]
         results = [dict(items[:a["split"]]), dict(items[a["split"]:])] if a["split"] else [dict(items)]
         I.call_value(self.target(I), [r, results, 3 if a["tail"] else 1], {})
@@ -281,9 +284,9 @@ class MutableDecodeBlocks(Spec):
     def ensures(self, I, a, out):
         seg, salt = out.value
         whole = z3.Concat(*[p.term for p in self._ps])
-        want = z3.SubString(whole, 0, Z(a["use"]))
+        want = z3.SubString(whole, 0, Z(a["tailsize"]) if a["tail"] else Z(a["use"]))
         return [("exactly-k-blocks-are-used-each-paired-with-its-own-share-number", z3.BoolVal(len(self._z.calls) == 1 and self._result[0] is self._ps[0])),
-                ("the-segment-is-the-pieces-joined-in-order-cut-to-its-real-length", z3.simplify(as_sstr(seg).term) == z3.simplify(want)),
+                ("the-segment-is-the-pieces-joined-in-order-cut-to-the-tail-size-only-for-the-files-last-segment", z3.simplify(as_sstr(seg).term) == z3.simplify(want)),
                 ("the-salt-travels-with-the-segment", z3.BoolVal(salt == "salt"))]
 
     def canary(self, I, a, out):
